@@ -106,6 +106,24 @@ func (*Typechecker).VisitCastExpr [C04, C02]
             ast.castAdmissible(clsOf(lhs), clsOf(expr.TargetType)) ==>
             t.Module.Ast.Faulty == at(LS, t.Module.Ast.Faulty) && t.latestReturnedType == expr.TargetType
 
+// --- indexing and field access ---
+// "an der Stelle": the index is a Zahl or a Byte, the indexed value a list or a Text; the result is the element type
+// (a Buchstabe for a Text)
+func (*Typechecker).VisitIndexing [C04]
+  requires t != nil && t.Module != nil && t.Module.Ast != nil && t.panicMode != nil && expr != nil
+  at LI after call Evaluate#1
+  at LL after call Evaluate#2
+  ensures !ddptypes.Equal(typ, ddptypes.ZAHL) && !ddptypes.Equal(typ, ddptypes.BYTE) ==> t.Module.Ast.Faulty
+  ensures !ddptypes.IsList(lhs) && !ddptypes.Equal(lhs, ddptypes.TEXT) ==> t.Module.Ast.Faulty
+  ensures (ddptypes.Equal(typ, ddptypes.ZAHL) || ddptypes.Equal(typ, ddptypes.BYTE)) && (ddptypes.IsList(lhs) || ddptypes.Equal(lhs, ddptypes.TEXT)) ==>
+            t.Module.Ast.Faulty == at(LL, t.Module.Ast.Faulty) && at(LL, t.Module.Ast.Faulty) == (at(LI, t.Module.Ast.Faulty) || at(LL, t.Module.Ast.Faulty))
+  ensures ddptypes.IsList(lhs) ==> t.latestReturnedType == ddptypes.GetListElementType(lhs)
+  ensures !ddptypes.IsList(lhs) ==> t.latestReturnedType == box(ddptypes.BUCHSTABE)
+// "von": only a Kombination has fields
+func (*Typechecker).VisitFieldAccess [C04]
+  requires t != nil && t.Module != nil && t.Module.Ast != nil && t.panicMode != nil && expr != nil
+  ensures !ddptypes.IsStruct(rhs) ==> t.Module.Ast.Faulty && t.latestReturnedType == box(mk[ddptypes.VoidType]())
+
 // --- statements: conditions and return values ---
 // the condition of a Wenn statement must be a Wahrheitswert
 func (*Typechecker).VisitIfStmt [C04]
